@@ -428,7 +428,8 @@ def e2e(chk, tables, cases, base_id, n):
         for cl in (v["clause"] if isinstance(v["clause"], list) else [v["clause"]]):
             chk.report(cl, "%s on the real daemon (eph serve + DEFAULTS): outcome=%s err=%s effective codes=%s" % (cl, e["outcome"], e["err"], json.dumps(e["eff"])),
                        ["# failing case (end-to-end daemon run)", by_id[e["id"]], "# recorded event: " + json.dumps(e)], replay_name=cl + "-e2e")
-    differ = [e["id"] for e in events if e["outcome"] == "ok" and e["eff"] != e["raw"]["in_process"]]
+    # (the daemon's DEFAULTS do not show every setting the in-process observation point reports: compare what both report)
+    differ = [e["id"] for e in events if e["outcome"] == "ok" and any(e["raw"]["in_process"].get(k) != v for k, v in e["eff"].items())]
     log("[trace] e2e-daemon: %d cases in %.1fs, %d clause failures, %d differ from the in-process observation, stats %s" % (
         len(events), time.time() - t0, len(res.get("viol", [])), len(differ), json.dumps(res.get("stats"))))
     if differ and not res.get("viol"):
